@@ -13,6 +13,26 @@ PROPS = {
         "level_note": "TCP delivery reliable and in order; symbolic AEAD; model hand-written, validated by correspondence; limits regenerated from source.",
         "assumptions": ["net.Conn delivers bytes reliably and in order"],
     },
+    "C03": {
+        "lean": "CedarProps.C03",
+        "engines": ["hsadv"],
+        "oracle_engine": {"hsadv": "hs"},
+        "trusted": ["authentication sub-protocols are oracles (method m ran with this peer and succeeded / failed); ECDH/HKDF symbolic (symmetric free symbol)"],
+        "technique": "Lean 4 theorems over client/server handshake machines with a universally quantified peer script + correspondence against scripted adversarial peers speaking raw CEDAR to the real ClientHandshake/ServerHandshake",
+        "level_text": "client_required_auth, client_required_enc, client_reported_enc_is_real, client_reported_auth_is_real, client_only_offered_methods_run, server_required_auth, server_required_enc, server_reported_is_real, decided_enc_is_keyed: for every local policy and EVERY peer (all field values, all bitmask replies, any key material, any post-auth ad) — kernel-checked over the model. Tied to the code by the hsadv engine: both roles x 4x4 policies (+integrity) x method shapes x the property's deviation catalogue + random peers; the scripted peer records which exchanges really completed and the harness reads the stream's real encryption state.",
+        "level_note": "Resumed handshakes are covered under C06. Sub-protocol soundness (did a 'successful' method deserve to succeed) is C11/C18. Only CLAIMTOBE/PASSWORD/NONE/TOKEN(no token)/unknown names are exercised on the wire; the theorems cover all methods via the oracle abstraction.",
+        "assumptions": ["an authentication sub-protocol reports success only if it completed (C11, C18)"],
+    },
+    "C10": {
+        "lean": "CedarProps.C10",
+        "engines": ["matrix"],
+        "oracle_engine": {"matrix": "hs"},
+        "trusted": ["ECDH/HKDF symbolic; credentials of a method modelled as a predicate credOK"],
+        "technique": "Lean 4 theorems (decision table = negotiateSecurity for all 4^4 levels by kernel evaluation, lifted to arbitrary lists; agreement of two honest machines) + exhaustive correspondence of two real endpoints over the full matrix x list shapes",
+        "level_text": "honest_matches_spec (negotiateSecurity fails / authenticates / encrypts exactly per the property's table, all 4^4 level combinations x existence of a usable method/cipher), negotiate_is_core + negotiated_method_common (lifting to arbitrary lists; unimplemented methods never count), client_view_consistent, jointLoop_success, honest_agree (same auth/enc outcome, session id, key, exchanges). Tied to the code by the matrix engine: two real endpoints, all 256 cells x 5-8 list/cipher shapes, a message each way after success, compared with honestRun and with an independently written table.",
+        "level_note": "Completeness of the bitmask retry loop (it finds a usable common method whenever one exists) is validated by the matrix engine, not proved (methods may share bits); methods exercised: CLAIMTOBE, PASSWORD, NONE.",
+        "assumptions": ["credentials: CLAIMTOBE always succeeds between the two test endpoints"],
+    },
     "C12": {
         "lean": "CedarProps.C12",
         "engines": ["gcmformat"],
